@@ -11,12 +11,12 @@ MC_Menu == <<
   << <<"op", <<S(1)>>, "sigmoid">>, <<"op", <<Lc(1), S(2)>>, "mse">>, <<"rand">>, <<"op", <<S(1), Lc(3)>>, "mul">> >>, \* activation + loss on the parameter, a random constructor
   << <<"leaf", TRUE>>, <<"op", <<Lc(1), Lc(1)>>, "mul">>, <<"bp", Lc(2)>>, <<"reset", Lc(1), TRUE>>, <<"op", <<Lc(1), S(2)>>, "matmul">>, <<"bp", Lc(3)>> >>,  \* train-like private loop
   << <<"op", <<S(1)>>, "transpose">>, <<"op", <<Lc(1), S(2)>>, "concat">>, <<"op", <<Lc(2)>>, "softmax">>, <<"op", <<S(1)>>, "fc">>, <<"op", <<Lc(4), S(2)>>, "bce">>, <<"op", <<S(2)>>, "slice">> >>,  \* shape ops, a SHARED layer object, a loss
-  << <<"leaf", TRUE>>, <<"op", <<Lc(1), S(2)>>, "elmax">>, <<"op", <<Lc(2), S(2)>>, "concat">>, <<"bp", Lc(3)>> >>   \* the shared untracked tensor as a DIRECT operand of back-propagated operations
+  << <<"leaf", TRUE>>, <<"op", <<Lc(1), S(2)>>, "elmax">>, <<"op", <<Lc(2), S(2)>>, "concat">>, <<"op", <<Lc(3)>>, "slice">>, <<"bp", Lc(4)>> >>   \* the shared untracked tensor as a DIRECT operand of back-propagated operations; Slice's backward rule builds helper tensors
 >>
 (* two more forward programs over the remaining operation families (contraction, data movement, reductions, losses) *)
 MC_MenuMore == <<
-  << <<"op", <<S(1), S(2)>>, "dot">>, <<"op", <<S(1)>>, "reshape">>, <<"op", <<S(2)>>, "broadcast">>, <<"op", <<S(1), S(3)>>, "patch">>, <<"op", <<S(1)>>, "varalong">>, <<"op", <<S(1)>>, "tanh">> >>,
-  << <<"op", <<S(1), S(2)>>, "matmul">>, <<"op", <<S(1)>>, "pow">>, <<"op", <<Lc(2), S(2)>>, "div">>, <<"op", <<S(1)>>, "leakyrelu">>, <<"op", <<S(1), S(3)>>, "ce">>, <<"op", <<S(3)>>, "maxalong">>, <<"op", <<S(1), S(3)>>, "sub">> >>
+  << <<"op", <<S(1), S(2)>>, "dot">>, <<"op", <<S(1)>>, "reshape">>, <<"op", <<S(2)>>, "broadcast">>, <<"op", <<S(1), S(3)>>, "patch">>, <<"op", <<S(1)>>, "varalong">>, <<"op", <<S(1), S(4)>>, "mul">> >>,
+  << <<"op", <<S(1), S(2)>>, "matmul">>, <<"op", <<S(1)>>, "pow">>, <<"op", <<Lc(2), S(2)>>, "div">>, <<"op", <<S(1)>>, "leakyrelu">>, <<"op", <<S(1), S(3)>>, "ce">>, <<"op", <<S(3)>>, "maxalong">>, <<"op", <<S(4), S(1)>>, "sub">> >>
 >>
 MC_Menu8 == MC_Menu \o MC_MenuMore
 (* the same plus a program that violates the proviso (back-propagates through the shared parameter) *)
